@@ -270,6 +270,7 @@ type c14Live struct {
 	listed   []string
 	signed   map[string]bool // listed providers that sent a signature since creation (the quorum ledger)
 	recorded map[string]bool // those whose signature is on the form (a further one is a repeated signature)
+	maxMin   int64           // the largest minimum in force at any signature on this form so far
 }
 type c14Track struct{ att, rep map[string]*c14Live }
 
@@ -285,7 +286,7 @@ func (t *c14Track) clone() *c14Track {
 			for a := range v.recorded {
 				rc[a] = true
 			}
-			o[k] = &c14Live{listed: v.listed, signed: s, recorded: rc}
+			o[k] = &c14Live{listed: v.listed, signed: s, recorded: rc, maxMin: v.maxMin}
 		}
 		return o
 	}
@@ -627,6 +628,12 @@ func (w *c14World) exec(tr *c14Track, op c14Op, hist []c14Op, emit bool) {
 			// was dropped because the file / prover was missing at the deciding moment left nothing)
 			repeated := lv.recorded[op.Creator]
 			earned := int64(len(lv.signed)) >= pre.Min
+			// a signature already on the form adds nothing to the count: it can only bring an action about when the
+			// minimum was lowered since (governance) -- the one case in which the quorum is met without a new signer
+			minLowered := pre.Min < lv.maxMin
+			if pre.Min > lv.maxMin {
+				lv.maxMin = pre.Min
+			}
 			lv.signed[op.Creator] = true
 			nSigned = int64(len(lv.signed))
 			if pf := post.form(op.Kind, key); pf != nil {
@@ -637,7 +644,7 @@ func (w *c14World) exec(tr *c14Track, op c14Op, hist []c14Op, emit bool) {
 				}
 			}
 			if repeated && changed {
-				if !earned {
+				if !earned || !minLowered {
 					bad("C14/"+kindName+"/repeated-signature-changed-state", "a repeated signature changed the state")
 				} else {
 					r.Hist("edges", "repeated signature triggers an action whose quorum was already met (minimum lowered / effect failed earlier)")
